@@ -154,12 +154,24 @@ impl Remover {
                     - Self::merge_child_markers(child_markers.iter().rev(), &mut end_marker);
 
                 let current = acc.len();
-                acc.push((
-                    marker,
-                    Some(current + (end_cursor - start_cursor).max(0) + 1),
-                ));
+                let end_idx = current + (end_cursor - start_cursor).max(0) + 1;
+                acc.push((marker, Some(end_idx)));
                 if start_cursor < end_cursor {
-                    acc.extend(child_markers[start_cursor..end_cursor].to_owned());
+                    // Pair indices of the children are relative to `child_markers`.
+                    acc.extend(child_markers[start_cursor..end_cursor].iter().map(
+                        |(range, pair_idx)| {
+                            let pair_idx = pair_idx.map(|idx| {
+                                if idx < start_cursor {
+                                    current
+                                } else if idx >= end_cursor {
+                                    end_idx
+                                } else {
+                                    idx - start_cursor + current + 1
+                                }
+                            });
+                            (range.clone(), pair_idx)
+                        },
+                    ));
                 }
                 acc.push((end_marker, Some(current)));
             } else {
